@@ -804,6 +804,10 @@ def args_model_points(ctx, st, kind, case, n, h, a, am, ph, data, S, D, scale):
         m = ctx.driver.call("c03.args", samples={"one": one, "rows": rows}, bases=_bases_json(bobj), **base)
         mok = bool(m["ok"])
         ctx.count(f"bases-form/{name}: " + ("accepted" if iok else "refused"))
+        if level == "info":
+            # malformed / undocumented forms: the property does not say what must be refused - recorded, never a verdict
+            ctx.info(f"gradient(samples, bases as {name}) [malformed / undocumented]: accepted", iok, mok)
+            return
         ok = ctx.point(f"gradient(samples, bases as {name}): accepted by the code == accepted by the model", level, [int(iok)], [int(mok)],
                        {**case, "form": name}, exact=True, sig=f"{kind}/bases-form-accept/{name}", theorem=TH_FORMS if level == "property" else "C03_bases_forms_refused")
         if ok and iok:
@@ -839,7 +843,7 @@ def args_model_points(ctx, st, kind, case, n, h, a, am, ph, data, S, D, scale):
         mal += [("short strings (last site missing)", S, False, rows_all, [b[:-1] for b in strings]),
                 ("multi-letter entries (2-D)", S, False, rows_all, [[b[:2]] + list(b[2:]) for b in strings])]
     for name, smp, one, rows, bobj in mal:
-        both(name, "aux", smp, one, rows, bobj)
+        both(name, "info", smp, one, rows, bobj)
 
 
 def _ft(m):
@@ -870,7 +874,9 @@ def layout_model_points(ctx, st, case, n, h, a, am, ph, space, scale):
                       (f"pi_grad(phase=False,{e})", lambda expand=expand: st.pi_grad(tv, tp, phase=False, expand=expand), tuple(m[f"pi_am_{e}"]), expand, "C03_pi_grad_layout"),
                       (f"pi_grad(phase=True,{e})", lambda expand=expand: st.pi_grad(tv, tp, phase=True, expand=expand), tuple(m[f"pi_ph_{e}"]), expand, "C03_pi_grad_layout")]
         for name, f, (mre, mim), expand, th in calls:
-            level = "property" if expand else "aux"   # training calls these with expand=True only (am_grads / ph_grads)
+            # gamma_grad / pi_grad are internal helpers of the gradient (the property names the TRAINING gradients, compared above):
+            # their tensor layout is the tie between model and code - auxiliary, never a replayable property violation
+            level = "aux"
             try:
                 t = _np(f())
                 iok = True
